@@ -470,7 +470,13 @@ pub fn get_best_move_until_stop(
     // Never start deeper than the requested limit
     let starting_depth = max_depth.map_or(starting_depth, |d| starting_depth.min(d.max(1)));
 
-    for depth in starting_depth..=u8::MAX {
+    // Every ply of the search pushes one entry on the game's 512-entry state stack.
+    // Leave room for the capture-only extension below the last ply: at most 30
+    // captures, 16 promotions and one en passant
+    let room = 512usize.saturating_sub(game.len() + 64);
+    let last_depth = room.min(u8::MAX as usize) as u8;
+
+    for depth in starting_depth..=last_depth {
         let Some((best_move, best_score, is_only_move)) =
             get_best_move_entry(game.clone(), continue_running, depth, table, &mut history)
         else {
